@@ -17,7 +17,7 @@ def gen_bounds(rng, quick):
     D = rng.randint(1, 6)
     lb, ub, plb, pub = [], [], [], []
     for _ in range(D):
-        kind = rng.choice(["lin", "lin", "log", "log", "decade_edge", "unbounded", "tight", "neg", "huge", "tiny"])
+        kind = rng.choice(["lin", "lin", "log", "log", "decade_edge", "unbounded", "tight", "neg", "huge", "tiny", "half_pos", "half_lin"])
         if kind == "lin":
             a = rng.uniform(-50, 50); w = 10.0 ** rng.uniform(-3, 4)
             l, u = a - w, a + w
@@ -33,6 +33,16 @@ def gen_bounds(rng, quick):
             l, u = -inf, inf; p = rng.uniform(-5, 0); q = p + 10.0 ** rng.uniform(-2, 3)
             if rng.random() < 0.3:      # a plausible box far from the origin / very wide
                 p = rng.choice([-1.0, 1.0]) * 10.0 ** rng.uniform(5, 10); q = p + 10.0 ** rng.uniform(3, 11)
+        elif kind == "half_pos":
+            # positive coordinate bounded on ONE side only (+inf is positive: log-transformed when the plausible range spans a decade)
+            l = 10.0 ** rng.uniform(-6, 2); u = inf
+            p = l * 10.0 ** rng.uniform(0, 1); q = p * rng.choice([10.0 ** rng.uniform(1.01, 4), 10.0, 10.0 ** rng.uniform(0.1, 0.99)])
+        elif kind == "half_lin":
+            a = rng.uniform(-50, 50); w = 10.0 ** rng.uniform(-1, 3)
+            if rng.random() < 0.5:
+                l, u = a - w, inf; p = a - w * rng.uniform(0, 0.9); q = p + w * rng.uniform(0.5, 20)
+            else:
+                l, u = -inf, a + w; q = a + w * rng.uniform(0, 0.9); p = q - w * rng.uniform(0.5, 20)
         elif kind == "tight":
             l = rng.uniform(-5, 5); u = l + 10.0 ** rng.uniform(-2, 2); p, q = l, u
         elif kind == "neg":
